@@ -18,7 +18,7 @@ pub static DEF: PropDef = PropDef {
         "for prune targets that are not <= the value's type but differ only off the value's path, both None and the correctly pruned value are accepted",
     ],
     shards: (16, 64),
-    budget_ms: (10_000, 30_000),
+    budget_ms: (60_000, 180_000),
 };
 
 pub fn type_universe(tier: Tier) -> Vec<Rc<RT>> {
